@@ -643,6 +643,15 @@ def run_batch(job):
     return [judge_single(cs, os.path.join(d, f"s{n}")) for n, cs in enumerate(cases)]
 
 
+def chain_final_type(t, steps):
+    for st in steps:
+        nxt = [nt for s_, nt in steps_from(t, None) if s_ == st]
+        if not nxt:
+            return t
+        t = nxt[0]
+    return t
+
+
 def select_quick(seed):
     rng = C.Rng(seed, 14)
     space = case_space(MAX_STEPS)
@@ -655,6 +664,16 @@ def select_quick(seed):
         rc = root_class(root)
         feats = {(rc, st[0], op_kind(op)) for st in steps} or {(rc, "none", op_kind(op))}
         feats.add((rdsc, "root", op_kind(op)))
+        # every ordered pair of adjacent step kinds under every operation kind, and the (last two steps, operation) triple:
+        # a bug may need a particular neighbourhood (e.g. parentheses around an #unwrap under ^mut)
+        kinds = [st[0] for st in steps]
+        for a_, b_ in zip(kinds, kinds[1:]):
+            feats.add(("pair", a_, b_, op_kind(op), "ptr" if is_ptr(root[2]) else "val"))
+        if len(kinds) >= 2:
+            # ... and the last two steps together with the class of the value that is finally written
+            fty = chain_final_type(root[2], steps)
+            fcls = "int" if fty == I else "ptr" if is_ptr(fty) else "arr" if is_arr(fty) else "opt" if is_opt(fty) else "struct"
+            feats.add(("tail", kinds[-2], kinds[-1], op_kind(op), fcls))
         if op[0] == "cmp":
             feats.add((rc, "operator", op[1]))
         if feats - covered:
@@ -666,6 +685,70 @@ def select_quick(seed):
     four = case_space(MAX_STEPS + 1, exact=True)
     sample4 = rng.sample(four, 60)
     return [space[k] for k in core] + [space[k] for k in extra] + sample4, len(core), len(space)
+
+
+# --------------------------------------------------------------------------- two pointer levels (family B)
+
+def two_level_cases():
+    """targets reached through a pointer to a pointer: every level that is crossed must be `^mut` for a write to be accepted.
+    (outer mutable?, inner mutable?, pointee kind, access form) -> one small program each"""
+    out = []
+    forms_arr = [("index_auto", "pp[0] = 77;", 2), ("index_auto_cmp", "pp[0] += 70;", 2), ("mutref_index", "m := ^mut pp[0]; m^ = 77;", 2),
+                 ("deref_index", "pp^[0] = 77;", 2), ("deref2_index", "pp^^[0] = 77;", 2), ("deref_only_assign_inner", None, 1)]
+    forms_st = [("field_auto", "pp.a = 77;", 2), ("field_auto_cmp", "pp.a += 70;", 2), ("mutref_field", "m := ^mut pp.a; m^ = 77;", 2),
+                ("deref_field", "pp^.a = 77;", 2), ("deref2_field", "pp^^.a = 77;", 2)]
+    for mo in (0, 1):
+        for mi in (0, 1):
+            for kind, forms in (("arr", forms_arr), ("struct", forms_st)):
+                for fname, stmt, levels in forms:
+                    if stmt is None:
+                        continue
+                    for bind in ("::", ":="):
+                        inner_t = ("^mut " if mi else "^") + ("[2]i64" if kind == "arr" else "T2")
+                        outer_t = ("^mut " if mo else "^") + inner_t
+                        obj = "arr := i64.[7, 8];" if kind == "arr" else "arr := T2.{ a = 7, b = 8 };"
+                        rd = "vr_i64(1, arr[0]); vr_i64(2, arr[1]);" if kind == "arr" else "vr_i64(1, arr.a); vr_i64(2, arr.b);"
+                        text = (R.PRELUDE + "T2 :: struct { a: i64, b: i64 };\nmain :: () -> i32 {\n    " + obj + f"\n    q : {inner_t} = {'^mut ' if mi else '^'}arr;\n"
+                                f"    pp : {outer_t} {':' if bind == '::' else '='} {'^mut ' if mo else '^'}q;\n    {stmt}\n    {rd}\n    0\n}}\n")
+                        accept = bool(mo and mi)
+                        out.append({"name": f"{kind}_{fname}_o{mo}_i{mi}_{'c' if bind == '::' else 'v'}", "text": text, "accept": accept, "form": fname, "mo": mo, "mi": mi, "bind": bind})
+    return out
+
+
+def run_two_level(work):
+    """returns (evaluations, distinct set, violations, inconclusive)"""
+    cases = two_level_cases()
+
+    def one(cs):
+        d = os.path.join(work, "tl_" + cs["name"])
+        c = R.compile_capy(d, {"main.capy": cs["text"]})
+        r = R.link_and_run(d, c.obj) if c.accepted else None
+        return cs, c, r
+    evals, distinct, viol, inconc = 0, set(), [], []
+    for cs, c, r in C.pmap(one, cases):
+        wit = {"files": {"main.capy": cs["text"]}}
+        if c.timed_out or (r is not None and (r.link_failed or r.timed_out)):
+            inconc.append(f"two-level {cs['name']}: watchdog/link")
+            continue
+        if c.internal_error:
+            viol.append({"key": "internal_error", "sig": "internal_error|" + c.panic_sig(), "what": f"two-level pointer case {cs['name']}: internal compiler error", "witness": wit})
+            continue
+        kinds = c.diag_kinds()
+        if not c.accepted and (any(not k.startswith(MUT_KINDS) for k in kinds) or not kinds):
+            inconc.append(f"two-level {cs['name']}: rejected for another reason: {kinds[:2]}")
+            continue
+        evals += 1
+        distinct.add(("two_level", cs["form"], cs["mo"], cs["mi"], cs["bind"]))
+        if cs["accept"] and not c.accepted:
+            viol.append({"key": "rejected_mutable", "sig": f"rejected_mutable|two_level|{cs['form']}", "what": f"two-level pointer case {cs['name']} (both levels ^mut) is rejected: {kinds[:2]}", "witness": wit})
+        elif not cs["accept"] and c.accepted:
+            viol.append({"key": "accepted_immutable", "sig": f"accepted_immutable|two_level|{cs['form']}|outer={'mut' if cs['mo'] else 'imm'}|inner={'mut' if cs['mi'] else 'imm'}",
+                         "what": f"two-level pointer case {cs['name']}: a write that crosses an immutable pointer level is accepted (exit {r.rc if r else None}, output {r.out[-120:] if r else ''})", "witness": wit})
+        elif cs["accept"]:
+            vals = {i: v.strip() for t, i, v in R.parse_log(r.out) if t == "I"}
+            if r.rc != 0 or vals.get(1) != "77" or vals.get(2) != "8":
+                viol.append({"key": "effect_not_visible", "sig": f"effect_not_visible|two_level|{cs['form']}", "what": f"two-level pointer case {cs['name']}: accepted write not visible through the owner: rc={r.rc} values={vals}", "witness": wit})
+    return evals, distinct, viol, inconc
 
 
 def select_thorough(seed):
@@ -796,7 +879,13 @@ def run(tier, seed):
         vs = sorted(viol_by_class[cls], key=lambda x: (len(x["sig"]), x["sig"]))
         vs[0]["what"] += f" [{len(vs)} case(s) of this class in this run]"
         violations.append(vs[0])
-    dropped = nviol - len(violations)
+    tl_evals, tl_distinct, tl_viol, tl_inconc = run_two_level(work)
+    evaluations += tl_evals
+    distinct |= tl_distinct
+    violations += tl_viol
+    inconc += tl_inconc
+    counters["two_level_pointer_cases"] = tl_evals
+    dropped = nviol - len(violations) + len(tl_viol)
     if len(violations) > VIOLATION_CAP:
         dropped += len(violations) - VIOLATION_CAP
         violations = violations[:VIOLATION_CAP]
